@@ -199,15 +199,23 @@ PROPS = {
         technique='bounded run-time contracts (stand-in); contracts stated in DESIGN.md not discharged'),
     'C06': dict(
         title='Monoidal normal form is a sound, idempotent, canonical representative',
-        level='exploration',
-        vc=[], sym=[], rtc='C06',
-        level_text='Bounded stand-in: every diagram with 2..3 (thorough 4) boxes over 10 box kinds: the interchanger class is '
-                   'computed by BFS under the real adjacent interchange (itself under a discharged contract, C05); normal_form '
-                   'is reachable, idempotent, equal across the class for connected diagrams (left and right), every yielded '
-                   'step is one legal interchange, NotImplementedError only on disconnected diagrams; foliation / flatten / depth. '
-                   'Termination and confluence are whole-history properties (Delpeuch-Vicary) outside per-call contracts.',
-        level_note='No obligation proved here beyond those of C05 on interchange itself.',
-        technique='bounded run-time contracts against the BFS closure of the verified single-step interchange'),
+        level='proof',
+        vc=['rewriting.interchange', 'rewriting.normalize'],
+        sym=[], rtc='C06',
+        level_text='Proof (per call, all diagrams, both directions): the real body of rewriting.normalize (sweep loop, inner '
+                   'loop, guard, yield) is verified with loop invariants against the call-site contract of interchange: every '
+                   'yielded diagram is exactly the interchange of its predecessor at (i, i+1) in the requested direction (so the '
+                   'flag passed and the guard evaluated select a legal move: InterchangerError / IndexError cannot escape), it is '
+                   'well-typed with the input\'s dom, cod and number of boxes, and when the generator is exhausted no adjacent '
+                   'pair satisfies the rewrite condition (fixed point, hence idempotence of normal_form). interchange itself is '
+                   're-verified (C05). Termination on connected diagrams, canonicity across the interchanger class, '
+                   'NotImplementedError only for disconnected diagrams, foliation / flatten / depth: bounded stand-in (whole-'
+                   'history properties: confluence and termination of the rewriting system, arXiv:1804.07832).',
+        level_note='Trusted: pyvc + solvers; the abstract call-site contract of interchange (fresh well-formed result related to '
+                   'the argument by the discharged functional spec); L-ichg. Bounded: all diagrams with <= 3 (thorough 4) boxes '
+                   'plus connected frames around ties, interchanger class by BFS under the real interchange.',
+        technique='VC generation from the real AST with loop invariants and yield obligations (z3/cvc5); bounded run-time '
+                  'contracts for termination and canonicity'),
     'C07': dict(
         title='Snake removal is sound for rigid diagrams',
         level='exploration',
